@@ -206,6 +206,7 @@ func patternResultsAreIndependent(s *sink) {
 
 func groupScalar(s *sink, g *hx.Gen) {
 	patternResultsAreIndependent(s)
+	groupStringerEnums(s)
 	t := g.Scalar()
 	r := g.Value(t, hx.Env{}, 0)
 	chain(s, t, r, "scalar")
